@@ -670,28 +670,57 @@ func (c *Ctx) c02Restore() {
 		return false, false
 	}
 	isUnmarshal := func(fn *types.Func, _ *ast.CallExpr) bool { return isFunc(fn, "ircserver", "(*IRCServer).Unmarshal") }
+	var stateHelpers []*load.FuncInfo
 	isApplyProto := func(fn *types.Func, _ *ast.CallExpr) bool { return isFunc(fn, "main", "(*FSM).applyProto") }
 	nU := 0
+	// the state record may be handled by a helper of package main that is called under msg.Type == robust.State: the
+	// helper's body is then judged like the inlined code, the call site supplies the State fact
+	type loadSite struct {
+		host *load.FuncInfo // function containing the Unmarshal call
+		uc   *ast.CallExpr
+		at   int // vertex in dp at which the State fact must hold
+	}
+	var loadSites []loadSite
 	for _, uc := range callsIn(dp, isUnmarshal) {
+		loadSites = append(loadSites, loadSite{dp, uc, dg.VertexOf(uc)})
+	}
+	for _, call := range astx.Calls(dp.Body(), true) {
+		fn := astx.Callee(di, call)
+		if fn == nil {
+			continue
+		}
+		h := c.P.FuncOf(fn)
+		if h == nil || h == dp || h.Body() == nil || load.ShortPkg(h.Pkg.PkgPath) != "main" {
+			continue
+		}
+		for _, uc := range callsIn(h, isUnmarshal) {
+			loadSites = append(loadSites, loadSite{h, uc, dg.VertexOf(call)})
+			stateHelpers = append(stateHelpers, h)
+		}
+	}
+	for _, ls := range loadSites {
+		uc := ls.uc
 		nU++
-		v := dg.VertexOf(uc)
-		known, val := inState(v)
+		known, val := inState(ls.at)
 		okRecv := false
 		if se, ok := ast.Unparen(uc.Fun).(*ast.SelectorExpr); ok {
-			okRecv = mentionsGlobal(di, se.X, "ircServer")
+			okRecv = mentionsGlobal(ls.host.Info(), se.X, "ircServer")
 		}
 		r.Check(known && val && okRecv, "C02.N4", dp.Name(), "state record loaded into the live server", c.P.Pos(uc.Pos()), "ircServer.Unmarshal under msg.Type == robust.State",
 			"the state record is not loaded into the (fresh) live server")
 		// filed under the returned index
-		as, _ := dg.V[v].Node.(*ast.AssignStmt)
+		hg := c.Graph(ls.host)
+		hdi := ls.host.Info()
+		as, _ := hg.V[maxInt(hg.VertexOf(uc), 0)].Node.(*ast.AssignStmt)
 		var idxObj types.Object
 		if as != nil && len(as.Lhs) >= 1 {
 			if id, ok := as.Lhs[0].(*ast.Ident); ok {
-				idxObj = astx.Obj(di, id)
+				idxObj = astx.Obj(hdi, id)
 			}
 		}
 		filed := false
-		ast.Inspect(dp.Body(), func(n ast.Node) bool {
+		di := hdi
+		ast.Inspect(ls.host.Body(), func(n ast.Node) bool {
 			if a2, ok := n.(*ast.AssignStmt); ok && len(a2.Lhs) == 1 {
 				if ie, ok := ast.Unparen(a2.Lhs[0]).(*ast.IndexExpr); ok {
 					if se, ok := ast.Unparen(ie.X).(*ast.SelectorExpr); ok && astx.FieldSel(di, se) == lss {
@@ -867,7 +896,20 @@ func (c *Ctx) c02Stream(snap *load.FuncInfo) {
 			okState = true
 		}
 	}
-	r.Check(okState && b64(pi, ps.Body(), "EncodeToString") && b64(di, dp.Body(), "DecodeString"), "C02.N5", ps.Name(), "state record encoding agrees", c.P.Pos(ps.Node().Pos()), "robust.State + base64.StdEncoding both ways",
+	decodes := b64(di, dp.Body(), "DecodeString")
+	if !decodes {
+		// the state record may be decoded in a helper of package main called from the decoder
+		for _, call := range astx.Calls(dp.Body(), true) {
+			if fn := astx.Callee(di, call); fn != nil {
+				if h := c.P.FuncOf(fn); h != nil && h != dp && h.Body() != nil && load.ShortPkg(h.Pkg.PkgPath) == "main" {
+					if len(callsIn(h, func(f2 *types.Func, _ *ast.CallExpr) bool { return isFunc(f2, "ircserver", "(*IRCServer).Unmarshal") })) > 0 && b64(h.Info(), h.Body(), "DecodeString") {
+						decodes = true
+					}
+				}
+			}
+		}
+	}
+	r.Check(okState && b64(pi, ps.Body(), "EncodeToString") && decodes, "C02.N5", ps.Name(), "state record encoding agrees", c.P.Pos(ps.Node().Pos()), "robust.State + base64.StdEncoding both ways",
 		"Persist and decodeProtobuf disagree on how the state record is typed/encoded")
 	// retained range
 	first := c.P.Field("main", "robustSnapshot", "firstIndex")
